@@ -338,7 +338,10 @@ def classify(unit, res):
                 break
         cl = unit.weaver.clauses.get(clause) if clause else None
         if kind == "precondition":
-            # clause (if any) is the callee's requires; the failure belongs to the call site's function
+            # clause (if any) is the callee's requires; the failure belongs to the call site's function, and the site is the call
+            # (primary span), not the callee's `requires` line (which lies in the template when the callee is a stand-in or lemma)
+            if prim:
+                site = prim[0]
             site_fn = unit.fn_of_line(prim[0]["line_start"]) if prim else None
             ob_fn = site_fn or (cl["fn"] if cl else None) or "template"
             callee = f"{cl['fn']}.requires.{cl['idx']}" if cl else "lib"
